@@ -18,7 +18,7 @@ var Props = []*h.Prop{
 		Stub:        stubCap,
 		Assumptions: []string{"frames that are neither IPv4 nor IPv6 have no flow and are excluded", "with an overflow the lost packets are checked by count and by per-class upper bounds, not attributed individually"}},
 	{ID: "C23", Run: c23, Bubble: true,
-		Rule:        "the local packet buffer is exercised in situ by the C21 scenario (production call pattern: adds while paused, drain-all, reset): pause-window length (schedule) and size limit (knob: 4096, 4097, 4100, 6000, 8192, 12288, 100000, 64 MiB) determine the add/grow/refuse/drain sequence; drained items must reproduce key, IP version, direction, TCP flags / ICMP type (orientation), parse status and size (class-wise conservation of the four counters), and an overflow is accepted only if a pause window received packets worth at least the limit; non-trivial = every run; distinct = distinct event-log hash including scheduling decisions",
+		Rule:        "the local packet buffer is exercised in situ by the C21 scenario (production call pattern: adds while paused, drain-all, reset): pause-window length (schedule) and size limit (knob: 4096, 4097, 4100, 6000, 8192, 12288, 100000, 64 MiB) determine the add/grow/refuse/drain sequence; drained items must reproduce key, IP version, direction, TCP flags / ICMP type (orientation), parse status and size (class-wise conservation of the four counters), and an overflow is accepted only if a pause window received packets worth at least the limit; one run in three drives the real LocalBuffer directly against a reference FIFO: 1-4 cycles of 0-550 inserts with all field values (both IP versions, every packet type and aux byte, parse statuses, 32-bit sizes), limits around the growth steps, in one cycle of two interleaved with partial drains, then a complete drain and a reset (clauses buffered-item-altered / -lost, phantom-item-drained, packet-refused-before-the-limit); non-trivial = every run; distinct = distinct event-log hash including scheduling decisions",
 		Real:        realCap,
 		Stub:        stubCap,
 		Assumptions: []string{"two runs in three exercise the buffer in situ (production call pattern), one run in three drives the bare buffer against a reference FIFO (1-4 cycles of inserts with every field value, complete drain, reset; limits around the growth steps); a refusal of the bare buffer is only judged when less than half of the limit is in use by the most generous accounting (the footprint of an element is not part of the contract)", "insertion order is observable only through flow orientation (first packet of a conversation decides)"}},
